@@ -185,7 +185,8 @@ def r2(ctx, F):
                 good = src is not None
             if good:
                 a = src[2]
-                conv = any(x[0] == 'call' and x[1].get('name') == 'convert_ref' for x in prov.walk(a[1], limit=200))
+                import entries as _e
+                conv = _e.from_convert_ref(F, a[1])
                 good = as_param_path(a[0]) == (1, ()) and conv
                 dv_calls_strains.add(src[1].get('path'))
             ctx.require(good, 'C16-R2', '%s:strains:%s' % (mode, fld), '%sStrains.%s = skill.into_current_strain_peaks().into_vec() of DifficultyValues::calculate(difficulty, converted map)' % (CAP[mode], fld),
@@ -195,7 +196,8 @@ def r2(ctx, F):
         same = len(dcalls) == 1 and (not dv_calls_strains or dcalls[0][1]['func'].get('path') in dv_calls_strains)
         if same:
             a = prov.prov_of(dfn).call_args(dcalls[0][0])
-            same = as_param_path(a[0]) == (1, ()) and any(x[0] == 'call' and x[1].get('name') == 'convert_ref' for x in prov.walk(a[1], limit=200))
+            import entries as _e
+            same = as_param_path(a[0]) == (1, ()) and _e.from_convert_ref(F, a[1])
         ctx.require(same, 'C16-R2', '%s:same-calculate' % mode, 'difficulty() and strains() both run %s::difficulty::DifficultyValues::calculate(difficulty, converted map)' % mode,
                     dfn.where(), bad='%s::difficulty::difficulty does not compute its skills with the same DifficultyValues::calculate(difficulty, converted map) call as strains()' % mode)
     ctx.floor('C16-R2', nfields, 11, 'exported strain vectors')
